@@ -99,11 +99,11 @@ var debugSave io.Writer
 var debugRegion = -1
 
 type regionTrace struct {
-	Head []string // text of the first chunk (retained in wave runs for attribution without re-tracing)
-	Retries     int // prologue retries (morestack) removed
-	HeapRecords int // records whose address was a run-dependent heap slot (compared coarsely)
-	Records int
-	Chunks  []uint64 // FNV hash of every chunkRecords kept records
+	Head        []string // text of the first chunk (retained in wave runs for attribution without re-tracing)
+	Retries     int      // prologue retries (morestack) removed
+	HeapRecords int      // records whose address was a run-dependent heap slot (compared coarsely)
+	Records     int
+	Chunks      []uint64 // FNV hash of every chunkRecords kept records
 }
 
 type dumpReq struct {
@@ -414,10 +414,9 @@ func funcLineRange(file, fn string) (int, int) {
 	return 0, 0
 }
 
-// machineExempt: entry points whose machine trace legitimately depends on the input because
-// a decoder's validity decision (exempt by the property) cannot be separated from the rest at
-// this level: SetCanonicalBytes runs the early-exit comparison isReduced on its input.
-var machineExempt = map[string]bool{"Scalar.SetCanonicalBytes(valid)": true}
+// machineExempt: entry points not compared at machine level (none: the decoder validity
+// decision of SetCanonicalBytes is handled by restricting its assignments, see mon/ctops.go).
+var machineExempt = map[string]bool{}
 
 // machineTrace is the machine-level stage of C03.
 func machineTrace(rc *runCfg, m *merged) error {
@@ -574,8 +573,14 @@ func machineTrace(rc *runCfg, m *merged) error {
 		var e1, e2 error
 		var wg2 sync.WaitGroup
 		wg2.Add(2)
-		go func() { defer wg2.Done(); _, da, e1 = runLackey(bin, filepath.Join(dir, "assign-"+an+".bin"), st, &dumpReq{op, chunk}) }()
-		go func() { defer wg2.Done(); _, db, e2 = runLackey(bin, filepath.Join(dir, "assign-"+bn+".bin"), st, &dumpReq{op, chunk}) }()
+		go func() {
+			defer wg2.Done()
+			_, da, e1 = runLackey(bin, filepath.Join(dir, "assign-"+an+".bin"), st, &dumpReq{op, chunk})
+		}()
+		go func() {
+			defer wg2.Done()
+			_, db, e2 = runLackey(bin, filepath.Join(dir, "assign-"+bn+".bin"), st, &dumpReq{op, chunk})
+		}()
 		wg2.Wait()
 		if e1 != nil || e2 != nil {
 			return map[string]any{"error": fmt.Sprint(e1, e2)}
